@@ -191,6 +191,99 @@ struct ThreadPlan {
     /// 0 nothing, 1 short spin, 2 yield, >=3: sleep that many microseconds
     pre: u32,
     gate: bool,
+    /// how a panicking closure panics (see `do_panic`)
+    pk: u8,
+}
+
+pub const NPANIC: u8 = 11;
+/// kinds that leave a process-wide print lock of tiny-std locked for ever (the guard of a panicking
+/// thread is never dropped): usable once per process each
+pub const PK_EPRINTLN: u8 = 1;
+pub const PK_PRINTLN: u8 = 2;
+pub const PK_DBG: u8 = 10;
+static PMUTEX: [tiny_std::sync::Mutex<u64>; 16] = [const { tiny_std::sync::Mutex::new(0) }; 16];
+
+struct PanicsInDisplay;
+impl core::fmt::Display for PanicsInDisplay {
+    fn fmt(&self, _f: &mut core::fmt::Formatter<'_>) -> core::fmt::Result {
+        panic!("probe: panic inside Display::fmt, i.e. while the print lock is held");
+    }
+}
+struct PanicsInDebug;
+impl core::fmt::Debug for PanicsInDebug {
+    fn fmt(&self, _f: &mut core::fmt::Formatter<'_>) -> core::fmt::Result {
+        panic!("probe: panic inside Debug::fmt, i.e. while the print lock is held");
+    }
+}
+struct PanicsInDrop(u32);
+impl Drop for PanicsInDrop {
+    fn drop(&mut self) {
+        if core::hint::black_box(self.0) != 0 {
+            panic!("probe: panic inside Drop::drop of a local");
+        }
+    }
+}
+
+/// The ways a closure can panic.  Whatever the closure held or was doing, the thread must still
+/// leave (panic handler: release, unmap, exit) and `join` must return None.
+#[inline(never)]
+fn do_panic(kind: u8, k: u32) -> ! {
+    match kind {
+        1 => {
+            // eprintln! takes tiny-std's stderr lock BEFORE it evaluates / formats its arguments
+            let none: Option<u32> = core::hint::black_box(None);
+            tiny_std::eprintln!("probe k={} value={}", k, none.unwrap());
+        }
+        2 => {
+            tiny_std::println!("probe k={} {}", k, PanicsInDisplay);
+        }
+        3 => {
+            // a tiny-std Mutex guard is held when the panic happens (it is never released)
+            let m = &PMUTEX[k as usize % 16];
+            if let Some(mut g) = m.try_lock() {
+                *g += 1;
+                panic!("probe: panic while holding a tiny_std::sync::Mutex guard {}", *g);
+            }
+        }
+        4 => {
+            let _d = PanicsInDrop(core::hint::black_box(k | 1));
+        }
+        5 => {
+            let none: Option<u64> = core::hint::black_box(None);
+            let _ = core::hint::black_box(none.unwrap());
+        }
+        6 => {
+            let v = [1u8, 2, 3];
+            let i = core::hint::black_box(k as usize + 3);
+            let _ = core::hint::black_box(v[i]);
+        }
+        7 => {
+            // arithmetic overflow: panics in builds with overflow checks, wraps otherwise
+            let a: u8 = core::hint::black_box(250);
+            let b: u8 = core::hint::black_box((k % 200) as u8 + 10);
+            #[allow(clippy::arithmetic_side_effects)]
+            let _ = core::hint::black_box(a + b);
+        }
+        8 => {
+            let words = [tag(k); 24];
+            panic!("probe: a long formatted message k={k} words={words:?} text={}", "0123456789abcdef0123456789abcdef0123456789abcdef0123456789abcdef");
+        }
+        9 => {
+            // the result is half built (a large value on the stack) when the closure gives up
+            let mut half = [0u64; 17];
+            for (i, x) in half.iter_mut().enumerate().take(9) {
+                *x = tag(k).wrapping_add(i as u64);
+            }
+            if core::hint::black_box(half[8]) != 0 {
+                panic!("probe: panic after the result was partially built {}", half[3]);
+            }
+        }
+        10 => {
+            let _ = tiny_std::dbg!(PanicsInDebug);
+        }
+        _ => {}
+    }
+    panic!("probe closure panics on purpose");
 }
 
 fn body<T: Tagged>(p: ThreadPlan) -> T {
@@ -202,7 +295,7 @@ fn body<T: Tagged>(p: ThreadPlan) -> T {
         }
         STARTED[k].store(true, Ordering::SeqCst);
         if p.panic {
-            panic!("probe closure panics on purpose");
+            do_panic(p.pk, p.k);
         }
         return T::make(p.k);
     }
@@ -232,8 +325,8 @@ fn body<T: Tagged>(p: ThreadPlan) -> T {
     }
     if p.panic {
         CEND[k as usize % MAXK].store(true, Ordering::SeqCst);
-        Ev::new("cpanic").u("k", k as u64).emit();
-        panic!("probe closure panics on purpose");
+        Ev::new("cpanic").u("k", k as u64).u("pk", p.pk as u64).emit();
+        do_panic(p.pk, k);
     }
     let v = T::make(k);
     CEND[k as usize % MAXK].store(true, Ordering::SeqCst);
@@ -318,7 +411,7 @@ fn h_race(n: u32, seed: u64, spin: u32, drop_pct: u32) {
     for i in 0..n {
         let k = NEXT_K.fetch_add(1, Ordering::SeqCst);
         STARTED[k as usize % MAXK].store(false, Ordering::SeqCst);
-        let plan = ThreadPlan { k, party: 0, panic: false, pre: 0, gate: false };
+        let plan = ThreadPlan { k, party: 0, panic: false, pre: 0, gate: false, pk: 0 };
         let join = rng.below(100) >= drop_pct;
         let wait = spin_wait_started;
         macro_rules! go {
@@ -405,7 +498,7 @@ enum HOp {
 enum Cmd {
     None,
     Batch { n: u32, seed: u64, conc: u32, panic_pct: u32, drop_pct: u32, types: u32 },
-    One { ty: u32, panic: bool, op: u8, pre: u32, hdelay: u32, gate: bool },
+    One { ty: u32, panic: bool, op: u8, pre: u32, hdelay: u32, gate: bool, pk: u8 },
     Prog { ops: [HOp; 8], n: usize },
     Race { n: u32, seed: u64, spin: u32, drop_pct: u32 },
 }
@@ -465,7 +558,9 @@ fn h_batch(n: u32, seed: u64, conc: u32, panic_pct: u32, drop_pct: u32, types: u
             3 => 60,
             _ => 400,
         };
-        let plan = ThreadPlan { k, party: 0, panic: rng.below(100) < panic_pct, pre, gate: false };
+        // kinds that hold a process-wide print lock are left to their own runs
+        let pk = [0u8, 3, 4, 5, 6, 7, 8, 9][rng.below(8) as usize];
+        let plan = ThreadPlan { k, party: 0, panic: rng.below(100) < panic_pct, pre, gate: false, pk };
         let Some(h) = spawn_any(ty, plan) else { continue };
         if used == conc {
             // evict a random victim first
@@ -487,10 +582,10 @@ fn h_batch(n: u32, seed: u64, conc: u32, panic_pct: u32, drop_pct: u32, types: u
     }
 }
 
-fn h_one(ty: u32, panic: bool, op: u8, pre: u32, hdelay: u32, gate: bool) {
+fn h_one(ty: u32, panic: bool, op: u8, pre: u32, hdelay: u32, gate: bool, pk: u8) {
     let k = NEXT_K.fetch_add(1, Ordering::SeqCst);
     CUR_K.store(k, Ordering::SeqCst);
-    let plan = ThreadPlan { k, party: 0, panic, pre, gate };
+    let plan = ThreadPlan { k, party: 0, panic, pre, gate, pk };
     let Some(h) = spawn_any(ty, plan) else { return };
     if hdelay > 0 {
         sys::sleep_us(hdelay as u64);
@@ -518,7 +613,9 @@ fn h_prog(ops: &[HOp]) {
         sched::maybe_block(tid, sched::H_OP, i);
         match *op {
             HOp::Spawn { party, ty, panic } => {
-                let plan = ThreadPlan { k: base + party as u32, party, panic, pre: 0, gate: false };
+                // panic kinds 0, 3..9 in turn (the kinds that hold a process-wide print lock have their own runs)
+                let r = ((base + party as u32) % 8) as u8;
+                let plan = ThreadPlan { k: base + party as u32, party, panic, pre: 0, gate: false, pk: if r == 0 { 0 } else { r + 2 } };
                 handles[party as usize] = spawn_any(ty, plan);
             }
             HOp::Join { party } => {
@@ -553,7 +650,7 @@ fn h_main() {
         match cmd {
             Cmd::None => {}
             Cmd::Batch { n, seed, conc, panic_pct, drop_pct, types } => h_batch(n, seed, conc, panic_pct, drop_pct, types),
-            Cmd::One { ty, panic, op, pre, hdelay, gate } => h_one(ty, panic, op, pre, hdelay, gate),
+            Cmd::One { ty, panic, op, pre, hdelay, gate, pk } => h_one(ty, panic, op, pre, hdelay, gate, pk),
             Cmd::Prog { ops, n } => h_prog(&ops[..n]),
             Cmd::Race { n, seed, spin, drop_pct } => h_race(n, seed, spin, drop_pct),
         }
@@ -697,7 +794,7 @@ fn cmd_one(line: &str) {
         GATE.store(0, Ordering::SeqCst);
     }
     sched::WAIT_ADDR.store(0, Ordering::SeqCst);
-    let s = send(Cmd::One { ty, panic, op, pre: num(line, "pre", 0) as u32, hdelay: num(line, "hdelay", 0) as u32, gate });
+    let s = send(Cmd::One { ty, panic, op, pre: num(line, "pre", 0) as u32, hdelay: num(line, "hdelay", 0) as u32, gate, pk: num(line, "pk", 0) as u8 });
     if wake {
         let woken = sched::stray_wake(1_500_000);
         if woken > 0 {
